@@ -78,10 +78,14 @@ pub(super) fn parse(mut s: &str) -> Result<Genotype, ParseError> {
 }
 
 fn next_allele<'a>(s: &mut &'a str) -> &'a str {
-    let (t, rest) = match s.chars().skip(1).position(is_phasing_indicator) {
-        Some(i) => s.split_at(i + 1),
-        None => s.split_at(s.len()),
-    };
+    let i = s
+        .char_indices()
+        .skip(1)
+        .find(|(_, c)| is_phasing_indicator(*c))
+        .map(|(i, _)| i)
+        .unwrap_or(s.len());
+
+    let (t, rest) = s.split_at(i);
 
     *s = rest;
 
@@ -95,12 +99,14 @@ fn is_phasing_indicator(c: char) -> bool {
 fn parse_first_allele(s: &str) -> Result<(Option<usize>, Option<Phasing>), allele::ParseError> {
     use super::allele::{parse_phasing, parse_position};
 
-    match parse_phasing(&s[..1]) {
-        Ok(phasing) => {
-            let position = parse_position(&s[1..])?;
+    // The first character may not be ASCII.
+    match s.split_at_checked(1) {
+        Some((p, t)) if parse_phasing(p).is_ok() => {
+            let phasing = parse_phasing(p)?;
+            let position = parse_position(t)?;
             Ok((position, Some(phasing)))
         }
-        Err(_) => {
+        _ => {
             if let Ok(position) = parse_position(s) {
                 Ok((position, None))
             } else {
